@@ -25,12 +25,13 @@ func New[T comparable]() *Notifier[T] {
 	}
 }
 
-func (v *Notifier[T]) removeListener(value T) {
+func (v *Notifier[T]) removeListener(value T, registeredListeners *listener) {
 	v.mutex.Lock()
 	defer v.mutex.Unlock()
 
+	// the listeners the caller belongs to might already have been notified (and replaced by newer ones)
 	valueListeners, exists := v.listeners.Get(value)
-	if !exists {
+	if !exists || valueListeners != registeredListeners {
 		return
 	}
 	valueListeners.count--
@@ -50,15 +51,16 @@ func (v *Notifier[T]) Listener(value T) *Listener {
 	if valueListener, exists := v.listeners.Get(value); exists {
 		valueListener.count++
 		return newListener(valueListener.channel, func() {
-			v.removeListener(value)
+			v.removeListener(value, valueListener)
 		})
 	}
 
 	msgProcessedChan := make(chan struct{})
-	v.listeners.Set(value, &listener{msgProcessedChan, 1})
+	valueListener := &listener{msgProcessedChan, 1}
+	v.listeners.Set(value, valueListener)
 
 	return newListener(msgProcessedChan, func() {
-		v.removeListener(value)
+		v.removeListener(value, valueListener)
 	})
 }
 
